@@ -12,6 +12,10 @@ structure Drv where
   reps : List Replica
   repReg : Option (List (List Nat × Nat))
   lastBlock : Option Block
+  /-- per replica: the `recent_embeddings` of its current `TensorStateMachine` object -/
+  wins : List (List (List Nat)) := []
+  /-- per replica: `true` = the object was created `with_threshold(0.0)` (every non-empty pair is similar) -/
+  modes : List Bool := []
 
 def C := drvCrypto
 
@@ -173,13 +177,14 @@ def tamperBlock (b : Block) (field variant : String) : Option Block :=
   | "signatures", _ => some { b with sigs := b.sigs ++ [1] }
   | _, _ => none
 
-def mkBlockOn (c : ChainSt) (sroot : List Nat) (hsel prev root sig : String) (ts : Nat) (proposer : Nat) (txs : List Tx) : Option Block :=
+def mkBlockOn (c : ChainSt) (sroot : List Nat) (hsel prev root sig : String) (ts : Nat) (proposer : Nat) (txs : List Tx)
+    (emb : List Nat := []) : Option Block :=
   let height := match hsel with | "ok" => some (c.height + 1) | "same" => some c.height | "skip" => some (c.height + 2) | _ => none
   let prevHash := match prev with | "ok" => some c.tip | "bad" => some (c.tip ++ [1]) | _ => none
   let txr := match root with | "ok" => some (txRoot C txs) | "zero" => some C.zero | "bad" => some (txRoot C txs ++ [1]) | _ => none
   match height, prevHash, txr with
   | some height, some prevHash, some txr =>
-    let h0 : Header := { height := height, prevHash := prevHash, txRoot := txr, stateRoot := sroot, embedding := [],
+    let h0 : Header := { height := height, prevHash := prevHash, txRoot := txr, stateRoot := sroot, embedding := emb,
                          codes := [], timestamp := ts, proposer := [proposer], signature := [] }
     let sg := match sig with
       | "ok" => some (C.sign proposer h0.bytes)
@@ -366,19 +371,31 @@ def chainStep (d : Drv) (line : String) : Drv × String :=
   -- replay stream
   | ["rinit", shared, ts1, ts2] => match shared.toNat?, ts1.toNat?, ts2.toNat? with
     | some sh, some t1, some t2 =>
-      ({ d with reps := [initReplica C (sh != 0) [1] t1, initReplica C (sh != 0) [1] t2], repReg := none }, "ok")
+      ({ d with reps := [initReplica C (sh != 0) [1] t1, initReplica C (sh != 0) [1] t2], repReg := none,
+                wins := [[], []], modes := [false, false] }, "ok")
     | _, _, _ => bad
   -- `n` replicas with separate state stores, bootstrapped from one genesis block; with or without validator keys
   | ["rnew", n, reg, ts] => match n.toNat?, reg.toNat?, ts.toNat? with
     | some n, some reg, some ts =>
       ({ d with reps := List.replicate n (initReplica C false [1] ts), repReg := if reg != 0 then some theReg else none,
-                lastBlock := none }, "ok")
+                lastBlock := none, wins := List.replicate n [], modes := List.replicate n false }, "ok")
     | _, _, _ => bad
   -- a block built by the proposer (replica `p`): chain head and state root taken from ITS chain and state store
   -- (`sroot`: ok = root of its state with the transactions applied, bad = that root altered, stale = root of its
   -- state without them)
-  | ["rblock", p, hsel, prev, root, sroot, sig, ts, prop, txs] => match p.toNat?, ts.toNat?, prop.toNat?, parseTxs txs with
-    | some p, some ts, some prop, some txs =>
+  | "rblock" :: p :: hsel :: prev :: root :: sroot :: sig :: ts :: prop :: txs :: rest =>
+    -- optional last field: the delta embedding, `-` (zero vector) or `<class>:<perturbation>`
+    let emb : Option (List Nat) := match rest with
+      | [] => some []
+      | ["-"] => some []
+      | [e] => match e.splitOn ":" with
+        | [c, q] => match c.toNat?, q.toNat? with
+          | some c, some q => some [c, q]
+          | _, _ => none
+        | _ => none
+      | _ => none
+    match p.toNat?, ts.toNat?, prop.toNat?, parseTxs txs, emb with
+    | some p, some ts, some prop, some txs, some emb =>
       match d.reps[p]? with
       | some r =>
         let good := stateRoot C (applyTxs r.stateStore txs)
@@ -389,21 +406,41 @@ def chainStep (d : Drv) (line : String) : Drv × String :=
           | _ => none
         match sr with
         | some sr =>
-          match mkBlockOn r.chain sr hsel prev root sig ts prop txs with
+          match mkBlockOn r.chain sr hsel prev root sig ts prop txs emb with
           | some b => ({ d with lastBlock := some b }, "ok")
           | none => bad
         | none => bad
       | none => bad
-    | _, _, _, _ => bad
+    | _, _, _, _, _ => bad
   -- `TensorStateMachine::apply_block` of the last built block on replica `i`
   | ["rapply", i] => match i.toNat?, d.lastBlock with
     | some i, some b =>
       match d.reps[i]? with
       | some r =>
-        let q := applyBlock C d.repReg r b
-        ({ d with reps := setNth d.reps i q.1 }, showApplyErr q.2)
+        -- the object's `apply_block`: window and threshold of replica `i` (`apply_block_independent_of_window`:
+        -- verdict and replica are those of `applyBlock`)
+        let q := applyBlockM (drvFast (d.modes.getD i false)) C d.repReg { rep := r, recent := d.wins.getD i [] } b
+        ({ d with reps := setNth d.reps i q.1.rep, wins := setNth d.wins i q.1.recent }, showApplyErr q.2)
       | none => bad
     | _, _ => bad
+  -- what `recent_embedding_count()` returns and whether `can_fast_path` holds of the last built block
+  | ["rwin", i] => match i.toNat?, d.lastBlock with
+    | some i, some b =>
+      if i < d.reps.length then
+        let w := d.wins.getD i []
+        (d, s!"n={w.length} fast={if canFastPath (drvFast (d.modes.getD i false)) w b then 1 else 0}")
+      else bad
+    | _, _ => bad
+  -- the process of replica `i` restarts: a new `TensorStateMachine` (`all` = 1: `with_threshold(0.0)`) over the same
+  -- chain and store
+  | ["rrestart", i, all] => match i.toNat?, all.toNat? with
+    | some i, some all =>
+      if i < d.reps.length then ({ d with wins := setNth d.wins i [], modes := setNth d.modes i (all != 0) }, "ok") else bad
+    | _, _ => bad
+  -- `clear_recent()`
+  | ["rclear", i] => match i.toNat? with
+    | some i => if i < d.reps.length then ({ d with wins := setNth d.wins i [] }, "ok") else bad
+    | none => bad
   | ["rstate", i] => match i.toNat? with
     | some i =>
       match d.reps[i]? with
